@@ -8,6 +8,7 @@ package main
 
 import (
 	"bytes"
+	"compress/gzip"
 	"fmt"
 	"io"
 	"math/rand"
@@ -59,6 +60,7 @@ type psScript struct {
 	Option   string `json:"option"`
 	Ts       string `json:"ts"`
 	Ims      bool   `json:"ims"`
+	Ae       string `json:"ae"`
 }
 
 type psCase struct {
@@ -103,7 +105,7 @@ func (e *psEnv) close() {
 	_ = os.RemoveAll(e.dir)
 }
 
-func newPsEnv(blocked []string, docExc bool) (*psEnv, error) {
+func newPsEnv(blocked []string, docExc bool, compress bool) (*psEnv, error) {
 	log.SetLevel(log.ERROR)
 	e := &psEnv{hits: map[string]bool{}}
 	var err error
@@ -151,6 +153,8 @@ func newPsEnv(blocked []string, docExc bool) (*psEnv, error) {
 	e.srv, err = proxy.NewServer(proxy.Config{
 		ProxyConfig:  gomitmproxy.Config{ListenAddr: &net.TCPAddr{IP: net.IPv4(127, 0, 0, 1), Port: 0}},
 		FiltersPaths: map[int]string{1: fp},
+
+		CompressContentScript: compress,
 	})
 	if err != nil {
 		return nil, err
@@ -291,6 +295,11 @@ func (e *psEnv) script(c *psScript) (status int, hasSelector bool, err error) {
 	if c.Ims {
 		r.Header.Set("If-Modified-Since", "Wed, 01 Jan 2010 01:00:00 GMT")
 	}
+	if c.Ae == "gzip" {
+		r.Header.Set("Accept-Encoding", "gzip, deflate")
+	} else if c.Ae == "identity" {
+		r.Header.Set("Accept-Encoding", "identity")
+	}
 	resp, err := e.client.Do(r)
 	if err != nil {
 		// a connection the proxy closed after its previous answer: POST is not retried by the transport itself
@@ -301,6 +310,18 @@ func (e *psEnv) script(c *psScript) (status int, hasSelector bool, err error) {
 	}
 	b, _ := io.ReadAll(resp.Body)
 	_ = resp.Body.Close()
+	// the body is read the way its own Content-Encoding header says
+	if ce := resp.Header.Get("Content-Encoding"); ce == "gzip" {
+		zr, err := gzip.NewReader(bytes.NewReader(b))
+		if err != nil {
+			return resp.StatusCode, false, nil // labelled gzip, but it is not
+		}
+		if b, err = io.ReadAll(zr); err != nil {
+			return resp.StatusCode, false, nil
+		}
+	} else if ce != "" {
+		return resp.StatusCode, false, nil
+	}
 	return resp.StatusCode, bytes.Contains(b, []byte(".ad-banner")), nil
 }
 
@@ -316,11 +337,16 @@ func cmdReplaySession(args []string) error {
 	}
 	defer out.close()
 	blocked, docExc := psConfig(m)
-	env, err := newPsEnv(blocked, docExc)
+	env, err := newPsEnv(blocked, docExc, false)
 	if err != nil {
 		return err
 	}
 	defer env.close()
+	envZ, err := newPsEnv(blocked, docExc, true) // the same server, configured to compress the content script
+	if err != nil {
+		return err
+	}
+	defer envZ.close()
 	evals, mism, tunnels, scripts, nontrivial := 0, 0, 0, 0, 0
 	var samples []string
 	for i := range recs {
@@ -329,13 +355,16 @@ func cmdReplaySession(args []string) error {
 		case "SCRIPT":
 			scripts++
 			evals++
-			st, sel, err := env.script(c.C)
-			if err != nil {
-				return fmt.Errorf("content script request %+v: %v", *c.C, err)
-			}
-			if st != c.Status || (st == 200) != sel {
-				mism++
-				out.write(map[string]any{"entry": "content-script endpoint", "case": c, "expected": c.Status, "got": st, "selector_in_body": sel})
+			for zi, e := range []*psEnv{env, envZ} {
+				st, sel, err := e.script(c.C)
+				if err != nil {
+					return fmt.Errorf("content script request %+v: %v", *c.C, err)
+				}
+				if st != c.Status || (st == 200) != sel {
+					mism++
+					out.write(map[string]any{"entry": "content-script endpoint", "case": c, "expected": c.Status, "got": st, "selector_in_body": sel,
+						"server_compresses": zi == 1})
+				}
 			}
 		case "CASE":
 			if c.Exp.Body == "tunnel" {
@@ -373,7 +402,7 @@ func cmdDriveSession(args []string) error {
 	}
 	defer out.close()
 	blocked, docExc := psConfig(m)
-	env, err := newPsEnv(blocked, docExc)
+	env, err := newPsEnv(blocked, docExc, false)
 	if err != nil {
 		return err
 	}
